@@ -10,7 +10,7 @@ def v(path, schema):
         ok = False
         print("INVALID", path, str(e)[:300])
 v('/verif/MANIFEST.json', '/root/.vp/MANIFEST.schema.json')
-for f in sorted(glob.glob('/verif/evidence/*.json')):
-    v(f, '/root/.vp/EVIDENCE.schema.json')
+for c in json.load(open('/verif/MANIFEST.json'))['checks']:
+    v(c['evidence_file'], '/root/.vp/EVIDENCE.schema.json')
 print("valid" if ok else "NOT VALID")
 sys.exit(0 if ok else 1)
